@@ -645,6 +645,9 @@ def resolve_strategy_inline_recurse(path, base, decisions):
             else:
                 raise ValueError('Conflict on unrecognized key: %r' % (k,))
 
+        # A notebook node like the cells it is made from (renderers of the
+        # decision use attribute access)
+        cell = nbformat.from_dict(cell)
         custom_diff = [op_addrange(d.local_diff[0].key, [cell])]
 
         decisions.custom(path,
